@@ -44,7 +44,7 @@ def OpEr (cx : Cx) (lo hi : Nat) (e : Node) (asg args : List Node) (R : (Node ×
     s.counter ≤ R.2.counter ∧
     (∀ new'', BRgL new new'' → ∀ σ, cx.ext σ → ∃ Δ, eraseAsg σ new'' = Δ ++ σ ∧ WinU lo hi s.counter R.2.counter Δ) ∧
     (∀ new'' x'', BRgL new new'' → BRg R.1.1 x'' → ∀ σ Δ2, cx.ext σ → Avoid s.counter R.2.counter Δ2 → AvoidP cx.bad Δ2 →
-      ∃ X Δ3, erase (Δ2 ++ eraseAsg σ new'') x'' = (X, Δ3 ++ (Δ2 ++ eraseAsg σ new'')) ∧ Sim X e ∧ Win lo hi Δ3)
+      ∃ X Δ3, erase (Δ2 ++ eraseAsg σ new'') x'' = (X, Δ3 ++ (Δ2 ++ eraseAsg σ new'')) ∧ ESim X e ∧ Win lo hi Δ3)
 
 theorem opEr_inplace (cx : Cx) (lo hi : Nat) (e' e : Node) (asg args more : List Node) (s : St)
     (hE : Er cx lo hi e' e) (hm : InertL more) (hnb : noBlkL more = true) :
@@ -95,17 +95,17 @@ theorem tempAssign_BRg_inv {k : Nat} {e' a'' : Node} {kind : IdentKind} {sp : Sp
     (h : BRg (.assign "=" (tempIdent k) (assignRight e' kind) sp) a'') :
     ∃ e'', a'' = .assign "=" (tempIdent k) (assignRight e'' kind) sp ∧ BRg e' e'' := by
   obtain ⟨l', r', rfl, hl, hr⟩ := h.assign_inv
-  rw [BRg_noBlk (noBlk_tempIdent k) hl]
+  rw [BRg_noBlk (noBlk_tempIdentE k) hl]
   obtain ⟨e'', rfl, he⟩ := assignRight_BRg_inv hr
   exact ⟨e'', rfl, he⟩
 
-theorem noBlk_arg {s : Option Span} {e : Node} (h : noBlk e = true) : noBlk (.arg s e) = true := by
+theorem noBlk_argE {s : Option Span} {e : Node} (h : noBlk e = true) : noBlk (.arg s e) = true := by
   rw [noBlk_eq]
   simp only [isBlockNode, kids, noBlkL_cons, noBlkL_nil, h]
   rfl
 
-theorem noBlk_exprOrSpread {e : Node} (k : IdentKind) (h : noBlk e = true) : noBlk (exprOrSpread e k) = true := by
-  cases k <;> exact noBlk_arg h
+theorem noBlk_exprOrSpreadE {e : Node} (k : IdentKind) (h : noBlk e = true) : noBlk (exprOrSpread e k) = true := by
+  cases k <;> exact noBlk_argE h
 
 theorem opEr_hoist (cx : Cx) (lo hi : Nat) (e' e : Node) (asg args : List Node) (sp : Span) (kind : IdentKind) (s s' : St)
     (hw : HypW cx hi s) (hE : Er cx lo hi e' e) (hc : s'.counter = s.counter + 1) :
@@ -123,9 +123,9 @@ theorem opEr_hoist (cx : Cx) (lo hi : Nat) (e' e : Node) (asg args : List Node) 
     subst ha
     exact inert_exprOrSpread kind (inert_temp _ _)
   have hnb : noBlkL [exprOrSpread (tempIdent s.counter) kind] = true := by
-    simp [noBlk_exprOrSpread kind (noBlk_tempIdent _)]
+    simp [noBlk_exprOrSpreadE kind (noBlk_tempIdentE _)]
   have key : ∀ new'', BRgL [Node.assign "=" (tempIdent s.counter) (assignRight e' kind) sp] new'' →
-      ∀ σ, cx.ext σ → ∃ X Δe, eraseAsg σ new'' = (s.counter, X) :: (Δe ++ σ) ∧ Sim X e ∧ Win lo hi Δe := by
+      ∀ σ, cx.ext σ → ∃ X Δe, eraseAsg σ new'' = (s.counter, X) :: (Δe ++ σ) ∧ ESim X e ∧ Win lo hi Δe := by
     intro new'' hn σ hσ
     obtain ⟨a'', rfl, ha⟩ := BRgL.single_inv hn
     obtain ⟨e'', rfl, he⟩ := tempAssign_BRg_inv ha
@@ -144,7 +144,7 @@ theorem opEr_hoist (cx : Cx) (lo hi : Nat) (e' e : Node) (asg args : List Node) 
     · exact Or.inl (h3 p hp)
   · intro new'' x'' hn hx σ Δ2 hσ hav _
     dsimp only at hav hx
-    rw [BRg_noBlk (noBlk_tempIdent _) hx]
+    rw [BRg_noBlk (noBlk_tempIdentE _) hx]
     obtain ⟨X, Δe, h1, h2, _⟩ := key new'' hn σ hσ
     refine ⟨X, [], ?_, h2, Win.nil _ _⟩
     rw [h1]
@@ -189,7 +189,7 @@ theorem replaceDefault_Er (cx : Cx) (lo hi : Nat) (e' e : Node) (asg args : List
       intro a ha
       simp only [List.mem_singleton] at ha
       subst ha
-      exact inert_exprOrSpread kind (inert_lit hl)) (by simp [noBlk_exprOrSpread kind (noBlk_lit hl)])
+      exact inert_exprOrSpread kind (inert_lit hl)) (by simp [noBlk_exprOrSpreadE kind (noBlk_litE hl)])
   · rw [h]
     exact opEr_hoist cx lo hi e' e asg args sp kind s s' hw hE hc
 
@@ -221,7 +221,7 @@ theorem noBlk_litSum : ∀ e : Node, isLiteralSum e = true → noBlk e = true :=
   apply Node.ind
   intro e ih h
   cases e with
-  | lit k v r sp => exact noBlk_lit rfl
+  | lit k v r sp => exact noBlk_litE rfl
   | bin op l r sp =>
     simp only [isLiteralSum, Bool.and_eq_true] at h
     rw [noBlk_eq]
@@ -238,17 +238,17 @@ theorem replaceExprNoExpand_Er (cx : Cx) (lo hi : Nat) (e' e : Node) (mode : Ide
     subst hx
     exact inert_exprOrSpread kind ha
   have singleNb : ∀ a : Node, noBlk a = true → noBlkL [exprOrSpread a kind] = true := by
-    intro a ha; simp [noBlk_exprOrSpread kind ha]
+    intro a ha; simp [noBlk_exprOrSpreadE kind ha]
   cases e' with
   | lit k v r lsp =>
     simp only [replaceExprNoExpand, run_pure]
-    exact opEr_inplace cx lo hi _ e asg args _ s hE (single _ (inert_lit rfl)) (singleNb _ (noBlk_lit rfl))
+    exact opEr_inplace cx lo hi _ e asg args _ s hE (single _ (inert_lit rfl)) (singleNb _ (noBlk_litE rfl))
   | ident nm isp =>
     cases mode with
     | replace => simp only [replaceExprNoExpand]; exact replaceDefault_Er cx lo hi _ e asg args sp kind s hw hE
     | keep =>
       simp only [replaceExprNoExpand, run_pure]
-      exact opEr_inplace cx lo hi _ e asg args _ s hE (single _ (inert_ident rfl)) (singleNb _ (noBlk_ident _ _))
+      exact opEr_inplace cx lo hi _ e asg args _ s hE (single _ (inert_ident rfl)) (singleNb _ (noBlk_identE _ _))
   | bin op l r bsp =>
     simp only [replaceExprNoExpand]
     split
